@@ -545,8 +545,13 @@ def inline_local_procedures(fnode):
     return total
 
 
-def param_deps(fnode):
-    """Flow-sensitive dependency analysis of a function without nested
+def param_deps(fnode, atom=None, control=True, envs=None):
+    """(atom: optional function expr -> set of labels | None giving extra
+    dependency sources such as  model[prefix + 'amp'].stderr -> {'amp'};
+    control: include control dependence; envs: optional list that receives
+    (return node, {name or attribute text: deps}) at every return)
+
+    Flow-sensitive dependency analysis of a function without nested
     control transfer surprises: for every `return`, the set of PARAMETERS
     each returned element may depend on (through assignments, augmented
     assignments, branches are joined, loops iterated to a fixpoint;
@@ -558,9 +563,20 @@ def param_deps(fnode):
 
     def deps(e, env):
         d = set()
-        for x in ast.walk(e):
+        stack = [e]
+        while stack:
+            x = stack.pop()
+            if atom is not None:
+                a = atom(x)
+                if a is not None:
+                    d |= a
+                    continue
             if isinstance(x, ast.Name) and isinstance(x.ctx, ast.Load):
                 d |= env.get(x.id, set())
+            elif isinstance(x, ast.Attribute) and norm(x) in env:
+                d |= env[norm(x)]
+                continue
+            stack.extend(ast.iter_child_nodes(x))
         return d
 
     def assign(t, d, env, aug=False):
@@ -571,12 +587,15 @@ def param_deps(fnode):
                 assign(el, d, env, aug)
         elif isinstance(t, ast.Starred):
             assign(t.value, d, env, aug)
-        elif isinstance(t, (ast.Subscript, ast.Attribute)):
+        elif isinstance(t, ast.Attribute):
+            k = norm(t)
+            env[k] = (env.get(k, set()) | d) if aug else set(d)
+        elif isinstance(t, ast.Subscript):
             b = t
             while isinstance(b, (ast.Subscript, ast.Attribute)):
                 b = b.value
             if isinstance(b, ast.Name):
-                env[b.id] = env.get(b.id, set()) | d | deps(t, env)
+                env[b.id] = env.get(b.id, set()) | d | deps(t.slice, env)
 
     def join(a, b):
         return {k: a.get(k, set()) | b.get(k, set())
@@ -602,12 +621,14 @@ def param_deps(fnode):
                 assign(st.target, deps(st.value, env) | ctl, env)
             elif isinstance(st, ast.Return):
                 v = st.value
+                if envs is not None:
+                    envs.append((st, {k: set(v_) for k, v_ in env.items()}))
                 if isinstance(v, ast.Tuple):
                     out.append((st, [deps(e, env) | ctl for e in v.elts]))
                 elif v is not None:
                     out.append((st, [deps(v, env) | ctl]))
             elif isinstance(st, ast.If):
-                c2 = ctl | deps(st.test, env)
+                c2 = (ctl | deps(st.test, env)) if control else ctl
                 e1, e2 = dict(env), dict(env)
                 block(st.body, e1, c2)
                 block(st.orelse, e2, c2)
@@ -615,7 +636,7 @@ def param_deps(fnode):
                 env.update(join(e1, e2))
             elif isinstance(st, (ast.For, ast.While)):
                 c2 = ctl | (deps(st.iter, env) if isinstance(st, ast.For)
-                            else deps(st.test, env))
+                            else (deps(st.test, env) if control else set()))
                 for _ in range(3):
                     e1 = dict(env)
                     if isinstance(st, ast.For):
